@@ -255,19 +255,20 @@ def stream(hist: int, ix: List[int]) -> bool:
 
 # ---------------------------------------------------------------------------------------------------------------------
 # The shipped pair: lark/grammars/python.lark (its _NEWLINE terminal carries the indentation) + PythonIndenter (tab_len 8)
-PY_INDENTS = ['', '  ', '\t', ' \t', '        ']
+PY_INDENTS = ['', '  ', '\t', ' \t', '        ', '  \f  ']      # a form feed resets the column (CPython); the text before it does not count
 PY_LINES = ['if x:', 'pass', 'f(', ')', '', '# c']
 
 if P and P.get('kind') == 'py':
     from lark import Lark
     from lark.indenter import PythonIndenter
+    from lark.exceptions import UnexpectedInput
     PYLARK = Lark.open_from_package('lark', 'python.lark', ['grammars'], parser='lalr', lexer='basic', postlex=PythonIndenter(), start='file_input')
     PYLEXER = hs.basic_lexer_of(PYLARK)
     NPL = len(PY_INDENTS) * len(PY_LINES)
     PIN_PY = P.get('pin')
 
 
-def _py_reference(lines):
+def _py_reference(lines, ff_quirk=False):
     """Events of the source lines by CPython's algorithm with the documented width metric (a tab counts tab_len = 8 columns):
     'I' / 'D' before the first token of a logical line, ('L', n) for physical line n carrying tokens, 'D's at the end."""
     out = []
@@ -275,8 +276,22 @@ def _py_reference(lines):
     paren = 0
     for n, (ind, body) in enumerate(lines, 1):
         if body in ('', '# c'):
+            if ff_quirk and '\f' in ind and paren == 0:
+                # (only to attribute a mismatch to the recorded finding) python.lark's _NEWLINE token stops at a form feed, so a blank
+                # or comment-only line whose indentation holds one yields a newline token of its own, with the indentation before it
+                w = ind.split('\f')[0].count(' ') + 8 * ind.split('\f')[0].count('\t')
+                if w > stack[-1]:
+                    stack.append(w)
+                    out.append('I')
+                else:
+                    while w < stack[-1]:
+                        stack.pop()
+                        out.append('D')
+                    if w != stack[-1]:
+                        return out, 'DedentError'
             continue                                   # blank and comment-only lines do not take part
         if paren == 0:
+            ind = ind.rsplit('\f', 1)[-1]
             w = ind.count(' ') + 8 * ind.count('\t')
             if w > stack[-1]:
                 stack.append(w)
@@ -343,8 +358,32 @@ def _py_body(rec, ls):
                     got.append(('L', t.line))
         except DedentError:
             err = 'DedentError'
+        if (err, got if err is None else None) != (werr, want if werr is None else None):
+            want2, werr2 = _py_reference(lines, ff_quirk=True)
+            if (err, got if err is None else None) == (werr2, want2 if werr2 is None else None):
+                rec['fkey'] = 'py:formfeed-in-blank-line-indentation'
         if err != werr:
             return hs.fail(rec, 'python.lark + PythonIndenter ended with %s, reference: %s' % (err, werr), text=text)
+        if werr == 'DedentError':
+            # the error is not an input error the parser may recover from: parse() raises it also with an on_error handler
+            first = None
+            try:
+                PYLARK.parse(text)
+            except DedentError:
+                first = 'dedent'
+            except UnexpectedInput:
+                first = 'other'
+            if first == 'dedent':
+                rec['count']['on_error_checked'] = 1
+                try:
+                    PYLARK.parse(text, on_error=lambda e: True)
+                    swallowed = True
+                except DedentError:
+                    swallowed = False
+                except UnexpectedInput:
+                    swallowed = True
+                if swallowed:
+                    return hs.fail(rec, 'parse(on_error=...) swallowed the DedentError', text=text)
         if got != want:
             return hs.fail(rec, 'INDENT/DEDENT structure of python.lark + PythonIndenter differs from the reference', text=text, got=got, want=want)
         # the real tokenizer where its width metric (tab to the next multiple of 8) coincides with the documented one (tabs first)
